@@ -8,8 +8,8 @@ def seededTable : List (String × Bool × Int × Int × Bool × Bool) := [
   (("none", false, (-1 : Int), (-1 : Int), true, true)),
   (("none", false, (4 : Int), (4 : Int), true, true)),
   (("zero", true, (1 : Int), (1 : Int), false, false)),
-  (("zero", true, (-1 : Int), (-1 : Int), false, false)),
-  (("zero", true, (4 : Int), (4 : Int), false, false)),
+  (("zero", true, (-1 : Int), (1 : Int), false, false)),
+  (("zero", true, (4 : Int), (1 : Int), false, false)),
   (("int", true, (1 : Int), (1 : Int), false, false)),
   (("int", true, (-1 : Int), (1 : Int), false, false)),
   (("int", true, (4 : Int), (1 : Int), false, false))]
